@@ -43,13 +43,17 @@ func vPath(i int) string {
 	return fmt.Sprintf("h.io/p%d", i)
 }
 
-var vMajor2, vPatchy bool
+var vMajor2, vPatchy, vPseudoTop bool
 var vShape int // 0: any edge; 1: ring; 2: fan
 
 var vPatchNames = []string{"v1.0.0", "v1.0.1", "v1.1.0", "v1.1.1"}
 
 func vVersion(i, k int) string {
 	if vPatchy {
+		if vPseudoTop && k == vNVer-1 {
+			// an untagged revision newer than every tag of its minor series (what get <p>@main leaves)
+			return "v1.0.2-0.20200101000000-abcdefabcdef"
+		}
 		return vPatchNames[k] // versions that differ in the patch number too (for @patch queries)
 	}
 	if i == 2 && vMajor2 {
@@ -160,6 +164,9 @@ func vSetup(nproj, nver int) *Resolver {
 	vTagged = nil
 	for i := 0; i < nproj; i++ {
 		for k := 0; k < nver; k++ {
+			if vPatchy && vPseudoTop && k == nver-1 {
+				continue // fetchable, but not a tag
+			}
 			vTagged = append(vTagged, &vcs.Version{Version: module.Version{Path: vPath(i), Version: vVersion(i, k)}, RevisionID: vNode(i, k)})
 		}
 	}
